@@ -40,7 +40,7 @@ Definition regex_search (pat s : list Z) : bool :=
          end
   end.
 
-Definition val_in (v : val) (l : list val) : bool := existsb (val_eqb v) l.
+Definition val_in (v : val) (l : list val) : bool := existsb (val_pyeq v) l.
 
 Section Values.
   Variable sub : nat -> nat -> bool.
@@ -301,7 +301,7 @@ Section Dispatch.
   Fixpoint last_assoc (v : val) (tab : list (val * nat)) (acc : option nat) : option nat :=
     match tab with
     | [] => acc
-    | (k, h) :: r => last_assoc v r (if val_eqb k v then Some h else acc)
+    | (k, h) :: r => last_assoc v r (if val_pyeq k v then Some h else acc)
     end.
 
   (* one rank's dispatcher: Some (Some h) = handler h, Some None = fall through *)
